@@ -156,7 +156,9 @@ def digest (s : St) : String :=
   let p := if pool.isEmpty then "-" else ",".intercalate pool
   let eps := (List.range s.neps).map (epLine s)
   let e := if eps.isEmpty then "-" else " ".intercalate eps
-  s!"pool={p} dials={s.dials} drn={(s.drn 0).active},{(s.drn 1).active} trk0[{TrkDrv.digest (s.trk 0)}] trk1[{TrkDrv.digest (s.trk 1)}] eps={e}"
+  let reg := (List.range s.neps).filter fun e => (s.eps e).registered
+  let rg := if reg.isEmpty then "-" else joinNat reg
+  s!"pool={p} dials={s.dials} drn={(s.drn 0).active},{(s.drn 1).active} trk0[{TrkDrv.digest (s.trk 0)}] trk1[{TrkDrv.digest (s.trk 1)}] reg={rg} eps={e}"
 
 end EpDrv
 
@@ -174,12 +176,16 @@ structure DrvSt where
   krnShared : Bool := false
   krnT : List Tracker.St := [Tracker.init, Tracker.init]
   krnK : List (List Nat) := [[], []]
+  /-- a release parked inside its deleting window: the keys BeginRelease returned -/
+  krnRels : List Nat := []
   /-- split `InvalidateDialerNetworkType`: the bucket snapshot and the number of retires so far -/
   epSnap : List Nat := []
   epInvalN : Nat := 0
   /-- split creation: the endpoint object dialled but not published yet -/
   epPending : Option EP.Ep := none
   epLastPub : Nat := 0
+  /-- the creation in progress has registered its endpoint already (inside the table write's critical section) -/
+  epRegDone : Bool := false
 
 def boolTok? : String → Option Bool
   | "1" => some true | "0" => some false | _ => none
@@ -328,6 +334,26 @@ def handleKrn (st : DrvSt) (toks : List String) : DrvSt × String :=
       let st1 := put st c r.1 r.2
       (st1, show_ st1)
     | _, _ => (st, "bad-op")
+  -- ReleaseUdpConnStateTuples step by step (yield points releaseConnState.afterBeginRelease / afterKernelDelete)
+  | ["rbegin", c, ks] =>
+    match c.toNat?, natList? ks with
+    | some c, some ks =>
+      let r := Tracker.step (getT c) (.begin ks)
+      let st1 := { (put st c r.1 (getK c)) with krnRels := r.2 }
+      (st1, show_ st1)
+    | _, _ => (st, "bad-op")
+  | ["rdelete", c] =>
+    match c.toNat? with
+    | some c => let st1 := put st c (getT c) ((getK c).filter fun k => !st.krnRels.contains k); (st1, show_ st1)
+    | none => (st, "bad-op")
+  | ["rfinal", c] =>
+    match c.toNat? with
+    | some c =>
+      let s1 := (Tracker.step (getT c) (.finalize st.krnRels)).1
+      let s2 := TrkDrv.resumeAll (s1.waiting.length + 1) s1
+      let st1 := { (put st c s2 (getK c)) with krnRels := [] }
+      (st1, show_ st1)
+    | none => (st, "bad-op")
   | ["transfer", cur, prev, ks] =>
     match cur.toNat?, prev.toNat?, natList? ks with
     | some c, some p, some ks =>
@@ -547,9 +573,25 @@ def handleEp (st : DrvSt) (toks : List String) : DrvSt × String :=
     | _, _, _, _, _, _ => (st, "bad-op")
   | ["gocpub"] =>
     match st.epPending with
-    | some E => ({ st with ep := EP.publishEp s E, epPending := none, epLastPub := s.neps }, s!"new {s.neps}")
+    | some E =>
+      -- the table write only; the endpoint enters the dialer's / transport's bucket when the creator goes on
+      ({ st with ep := EP.publishEp s { E with registered := false }, epPending := none, epLastPub := s.neps,
+                 epRegDone := false }, s!"new {s.neps}")
     | none => (st, "bad-op")
-  | ["gocret"] => (st, s!"new {st.epLastPub}")
+  | ["gocpubreg"] =>
+    match st.epPending with
+    | some E =>
+      -- table write and registration in one critical section
+      ({ st with ep := EP.register (EP.publishEp s { E with registered := false }) s.neps, epPending := none,
+                 epLastPub := s.neps, epRegDone := true }, s!"new {s.neps}")
+    | none => (st, "bad-op")
+  | ["gocret"] =>
+    if st.epRegDone then (st, s!"new {st.epLastPub}")
+    else ({ st with ep := EP.register s st.epLastPub }, s!"new {st.epLastPub}")
+  | ["tdone", d] =>
+    match d.toNat? with
+    | some d => upd (EP.transportDone s d) "ok"
+    | none => (st, "bad-op")
   | ["track", e, j] =>
     match e.toNat?, j.toNat? with
     | some e, some j => upd (EP.track s e j) "ok"
